@@ -8,10 +8,10 @@ from gen_doc import Node, text as T
 from framework import Result
 
 ID = 'C12'
-# ---- PLACEHOLDER (to be filled in by the proof side): Lean targets and theorem names ----------
-LEAN_TARGETS = []
-THEOREMS = []
-# -----------------------------------------------------------------------------------------------
+LEAN_TARGETS = ['TexSoupProofs.Properties.C12']
+THEOREMS = ['TexSoup.C12.' + n for n in (
+    'double_dollar_greedy', 'escaped_dollar_is_no_switch', 'dollar_facts', 'asymmetric_switch',
+    'sizing_command_is_one_token', 'math_region')]
 PARTIAL = []
 TRUSTED = ['harness/props/c12.py (math kinds x bodies x contexts, expected nodes and search results)',
            'harness/gen_doc.py (math grammar, sizing-command and operator tables written down from the documentation, '
@@ -333,22 +333,46 @@ def _rule(ctx):
                len(G.SIZING)))
 
 
+def _padded_names(r):
+    """Environment names padded with blanks inside the braces (the parser strips names, so they still mean the
+    verbatim-like / math environment).  Model and implementation must agree; they are outside the oracle domain
+    (the serialisation drops the blanks: recorded finding)."""
+    import gen
+    docs = gen.padded_env_docs()
+    reqs, want = [], []
+    for d in docs:
+        for tol in (0, 1):
+            reqs.append(common.parse_req(d, tol, ()))
+            want.append(common.impl_parse(d, tol, ())[0])
+    got = common.model_batch(reqs)
+    for i, (w, g) in enumerate(zip(want, got)):
+        d = docs[i // 2]
+        r.count(('padded', d, i % 2), True)
+        r.bump('padded_names:' + L.parse_err_kind(w))
+        if w != g:
+            r.fail('parse-mismatch', 'model and implementation differ on a padded environment name (tol %d)' % (i % 2),
+                   input=d, impl=w[:300], model=g[:300])
+
+
 def correspondence(ctx):
     r = Result()
     common.impl()
     st = L.merge_jobs(_run(ctx, True), r, None)
     st.into(r)
+    _padded_names(r)
     r.exhaustive = ctx.thorough
-    r.rule = '`parse` (tolerance 0) and `find` of `$`/`displaymath` and of a command inside, compared textually on: ' + _rule(ctx)
+    r.rule = ('`parse` (tolerance 0) and `find` of `$`/`displaymath` and of a command inside, compared textually on: ' +
+              _rule(ctx) + '; plus (correspondence only) environment names padded with blanks inside the braces, '
+              'tolerance 0 and 1')
     return r
 
 
 def oracle(ctx, seeds, scale):
     r = Result()
     common.impl()
-    for s in seeds:
-        if isinstance(s, str):
-            r.count(('seed', s), True)
+    # the inputs on which the correspondence diverged are among the (shared) inputs below, where they are
+    # evaluated first-class with their generating record; nothing more can be said about a bare string
+    r.stats['diverging_inputs_received'] = len([s for s in seeds if isinstance(s, str)])
     key = (ctx.tier, ctx.seed, True, 1)
     res = list(_CACHE[key]) if key in _CACHE and scale == 1 else list(_run(ctx, False, scale))
     st = L.merge_jobs(res, None, r)
